@@ -203,7 +203,9 @@ def main():
         tier = w.get("tier", tier)
         replay_env = {"VERIF_REPLAY": os.path.abspath(replay)}
     t_start = time.time()
-    outdir = os.path.join(VERIF, "out", "%s-%s-%d%s" % (prop, tier, seed, "-replay" if replay else ""))
+    # VERIF_SCRATCH (used by mutants/seedrun.sh only): run against another tree without touching out/ and evidence/
+    scratch = os.environ.get("VERIF_SCRATCH")
+    outdir = os.path.join(scratch or os.path.join(VERIF, "out"), "%s-%s-%d%s" % (prop, tier, seed, "-replay" if replay else ""))
     shutil.rmtree(outdir, ignore_errors=True)
     os.makedirs(outdir, exist_ok=True)
     overlay = write_overlay(outdir)
@@ -334,8 +336,9 @@ def main():
         "wall_s": round(wall, 2), "violations": len(real),
     }
     if not replay:
-        os.makedirs(os.path.join(VERIF, "evidence"), exist_ok=True)
-        with open(os.path.join(VERIF, "evidence", prop + ".json"), "w") as fh:
+        evdir = os.path.join(scratch, "evidence") if scratch else os.path.join(VERIF, "evidence")
+        os.makedirs(evdir, exist_ok=True)
+        with open(os.path.join(evdir, prop + ".json"), "w") as fh:
             json.dump(ev, fh, indent=1, sort_keys=True)
             fh.write("\n")
 
@@ -355,7 +358,7 @@ def main():
     if real:
         if not replay:
             # keep the complete output directory of a failing run (witnesses, child logs) for triage
-            keepdir = os.path.join(VERIF, "out", "failed", "%s-%s-%d-%d" % (prop, tier, seed, int(time.time())))
+            keepdir = os.path.join(scratch or os.path.join(VERIF, "out"), "failed", "%s-%s-%d-%d" % (prop, tier, seed, int(time.time())))
             os.makedirs(os.path.dirname(keepdir), exist_ok=True)
             try:
                 shutil.copytree(outdir, keepdir, ignore=shutil.ignore_patterns("*.test"))
